@@ -106,11 +106,12 @@ ForcedN(f, pre, post, e) ==
 ForcedQ(f, pre, post, e) ==
    LET base == CASE e.op = "reset" -> {}
                  [] e.op = "restart" -> QueuesOf(post)
+                 [] e.op = "final" -> IF e.reloaded THEN QueuesOf(post) ELSE f
                  [] e.op \in {"reportBound", "updateAsk"} -> f \cup AppQueuePath(post, e.app) \cup AppQueuePath(pre, e.app)
                  [] e.op \in {"updateNode", "removeNode"} -> f \cup {"root"}
                  [] OTHER -> f IN
    IF e.op = "reset" THEN {} ELSE base \cup (QChanged(pre, post, "max") \ {"root"})
-Lowered(f, pre, post, e) == IF e.op = "reset" THEN {} ELSE IF e.op = "restart" THEN QueuesOf(post) ELSE f \cup QChanged(pre, post, "maxApps")
+Lowered(f, pre, post, e) == IF e.op = "reset" THEN {} ELSE IF e.op = "restart" \/ (e.op = "final" /\ e.reloaded) THEN QueuesOf(post) ELSE f \cup QChanged(pre, post, "maxApps")
 
 Init == /\ l = 1 /\ sv = AfterStep(SV0, Trace[1])[1] /\ bad = {}
         /\ fN = {} /\ fQ = {} /\ low = {} /\ den = {} /\ cnf = Trace[1].conf
@@ -258,7 +259,7 @@ C09_Step == \A m \in SchedAllocs : m.node \in NodesOf(Pre) =>
 C09_Released == Step => \A m \in SchedAllocs : \A n \in NodesOf(Post) : m.key \notin ToSet(Post.nodes[n].resv)
 
 (* ====================================================================== C10 *)
-PrevState(a) == IF Step /\ E.op # "restart" /\ a \in AppsOf(Pre) THEN Pre.apps[a].state ELSE "New"
+PrevState(a) == IF Step /\ E.op \notin {"restart", "final"} /\ a \in AppsOf(Pre) THEN Pre.apps[a].state ELSE "New"
 C10_Transitions == LET s == St(l) IN \A a \in AppsOf(s) :
       LET lg == <<PrevState(a)>> \o s.apps[a].newlog IN
       /\ \A i \in 1..(Len(lg) - 1) : <<lg[i], lg[i+1]>> \in AllowedTransitions
@@ -488,7 +489,10 @@ KF_UpdateLinkedReal == Step /\ E.op = "updateAsk" /\ E.app \in AppsOf(Pre) /\ E.
 KF_UpdateReleasedAlloc == Step /\ E.op \in {"bad", "updateAsk"} /\ "app" \in DOMAIN E /\ "key" \in DOMAIN E
       /\ E.app \in AppsOf(Pre) /\ E.key \in DOMAIN Pre.apps[E.app].asks
       /\ Pre.apps[E.app].asks[E.key].allocated /\ Pre.apps[E.app].asks[E.key].rel = "" /\ E.key \notin DOMAIN Pre.apps[E.app].allocs
+\* an accepted reload that changes the limit configuration while some application is tracked under a group
+KF_ReloadWithGroupTracking == IsReload /\ E.ok /\ \E g \in DOMAIN Pre.groups : Pre.groups[g].apps # <<>>
 KFAll == /\ KFHit("KF-C01-REQNODE-UNSCHED", KF_ReqNodeUnsched)
+         /\ KFHit("KF-C05-RELOAD-GROUP-TRACKING", KF_ReloadWithGroupTracking)
          /\ KFHit("KF-C13-UPDATE-RELEASED-ALLOC", KF_UpdateReleasedAlloc)
          /\ KFHit("KF-C03-UPDATE-LINKED-REAL", KF_UpdateLinkedReal)
          /\ KFHit("KF-C05-TRACKER-APP-GHOST", KF_TrackerAppGhost)
